@@ -80,6 +80,7 @@ func GuardedFor(horizon time.Duration, f func(), trs ...*memhttp.Transport) Guar
 
 // Bubble runs f inside a synctest bubble as a subtest.
 func Bubble(t *testing.T, f func()) {
+	ev.Tick()
 	synctest.Test(t, func(*testing.T) { f() })
 }
 
